@@ -265,3 +265,259 @@ pub fn c17(rng: &mut Rng, thorough: bool, _idx: u64) -> Spec {
     spec.oracles = vec!["c17_shutdown".into()];
     spec
 }
+
+fn pool_on(name: &str, hosts: &[&str], pool_size: u32, mode: &str) -> PoolDef {
+    let mut servers = Vec::new();
+    for (i, h) in hosts.iter().enumerate() {
+        servers.push((h.to_string(), 5432u16, if i == 0 { "primary".to_string() } else { "replica".to_string() }));
+    }
+    PoolDef::simple(name, mode, vec![UserDef::new("app", "apppw", pool_size)], vec![ShardDef { id: "0".into(), database: name.into(), servers, mirrors: vec![] }])
+}
+
+/// C14: old/new configuration pairs, reload by admin RELOAD, SIGHUP or autoreload, clients
+/// idle, mid-transaction and arriving around the reload.
+pub fn c14(rng: &mut Rng, thorough: bool, idx: u64) -> Spec {
+    let with_db2 = true;
+    let mut old = Cfg::new();
+    old.set("connect_timeout", 3000);
+    old.pools.push(pool_on("db", &["pg-db-p", "pg-db-r"][..rng.range(1, 2) as usize], 3, "transaction"));
+    if with_db2 {
+        let mut p2 = pool_on("db2", &["pg-db2-p"], 2, "transaction");
+        if rng.chance(0.5) {
+            // a second shard (clients that do not pick a shard are served by the default shard 0)
+            p2.shards.push(ShardDef { id: "1".into(), database: "db2".into(), servers: vec![("pg-db2-s1".into(), 5432, "primary".into())], mirrors: vec![] });
+        }
+        old.pools.push(p2);
+    }
+    let trigger = *rng.pick(&["RELOAD", "RELOAD", "HUP", "autoreload"]);
+    if trigger == "autoreload" {
+        old.set("autoreload", 200);
+    }
+    let variant = if idx % 2 == 0 {
+        *rng.pick(&["unchanged", "add_pool", "remove_pool", "change_servers", "change_general", "add_pool_server_down"])
+    } else {
+        *rng.pick(&["syntax", "semantic_role", "semantic_two_primaries", "semantic_min_pool", "semantic_default_shard", "semantic_shard_id", "semantic_dup_server", "missing", "readerror", "truncated"])
+    };
+    // (a pool whose server is down while it is being built makes the reload itself take seconds;
+    // overlapping it with timer- or signal-driven reloads only blurs what "acknowledged" means)
+    let trigger = if variant == "add_pool_server_down" { "RELOAD" } else { trigger };
+    if variant == "add_pool_server_down" {
+        old.general.remove("autoreload");
+    }
+    let mut new = old.clone();
+    let mut new_text: Option<String> = None;
+    let mut file_kind = "data";
+    let valid = idx % 2 == 0;
+    match variant {
+        "unchanged" => {}
+        "add_pool" | "add_pool_server_down" => {
+            let mut p = pool_on("db3", &["pg-db3-p"], 2, "transaction");
+            if variant == "add_pool_server_down" {
+                p.users[0].min_pool_size = Some(1);
+            }
+            new.pools.push(p);
+        }
+        "remove_pool" => {
+            new.pools.retain(|p| p.name != "db2");
+        }
+        "change_servers" => {
+            for p in new.pools.iter_mut() {
+                if p.name == "db2" {
+                    p.shards[0].servers = vec![("pg-db2-alt".into(), 5432, "primary".into())];
+                }
+            }
+        }
+        "change_general" => {
+            new.set("ban_time", 77);
+        }
+        "syntax" => new_text = Some(format!("{}\n[pools.db\nthis is = not toml ===\n", new.render())),
+        "semantic_role" => {
+            new.pools[0].default_role = "bogus".into();
+        }
+        "semantic_two_primaries" => {
+            new.pools[0].shards[0].servers = vec![("pg-db-p".into(), 5432, "primary".into()), ("pg-db-r".into(), 5432, "primary".into())];
+        }
+        "semantic_min_pool" => {
+            new.pools[0].users[0].min_pool_size = Some(99);
+        }
+        "semantic_default_shard" => {
+            // one past the last shard (the boundary), or further out
+            let n = new.pools[1].shards.len() as u64;
+            new.pools[1].extra.push(format!("default_shard = \"shard_{}\"", n + rng.below(3)));
+        }
+        "semantic_shard_id" => {
+            new.pools[1].shards[0].id = "first".into();
+        }
+        "semantic_dup_server" => {
+            let s0 = new.pools[0].shards[0].servers[0].clone();
+            new.pools[0].shards[0].servers.push((s0.0.clone(), s0.1, "primary".into()));
+            new.pools[0].shards[0].servers[0].2 = "replica".into();
+            new.pools[0].shards[0].servers.push((s0.0, s0.1, "primary".into()));
+        }
+        "missing" => file_kind = "missing",
+        "readerror" => file_kind = "readerror",
+        "truncated" => {
+            let mut changed = new.clone();
+            changed.pools.push(pool_on("db3", &["pg-db3-p"], 2, "transaction"));
+            let t = changed.render();
+            let cut = rng.range(10, (t.find("[pools.").unwrap_or(60) as u64).saturating_sub(2).max(11)) as usize;
+            new_text = Some(t[..cut].to_string());
+        }
+        _ => unreachable!(),
+    }
+    let new_content = new_text.unwrap_or_else(|| new.render());
+    // hosts: every server that appears in either configuration
+    let mut hosts = old.hosts();
+    for h in new.hosts() {
+        if !hosts.iter().any(|x| x.addr == h.addr) {
+            hosts.push(h);
+        }
+    }
+    if !hosts.iter().any(|h| h.addr == "pg-db3-p:5432") {
+        let mut extra = Cfg::new();
+        extra.pools.push(pool_on("db3", &["pg-db3-p"], 2, "transaction"));
+        hosts.extend(extra.hosts());
+    }
+    let t_file = rng.range(60, 250);
+    let t_reload = t_file + rng.range(5, 60);
+    let mut actions = vec![ActionSpec { at: When::AtMs { ms: t_file }, act: Action::SetFile { kind: file_kind.into(), content: new_content.clone() } }];
+    let mut clients = Vec::new();
+    // admin: look, reload, look again
+    let mut admin_steps = vec![Step::Think { ms: t_reload }, q("SHOW DATABASES".into(), 0), q("SHOW CONFIG".into(), 0)];
+    match trigger {
+        "RELOAD" => {
+            admin_steps.push(Step::Emit { ev: "reload_begin".into() });
+            admin_steps.push(q("RELOAD".into(), 0));
+            admin_steps.push(Step::Emit { ev: "reloaded".into() });
+        }
+        "HUP" => {
+            actions.push(ActionSpec { at: When::AtMs { ms: t_reload }, act: Action::Emit { ev: "reload_begin".into() } });
+            actions.push(ActionSpec { at: When::AtMs { ms: t_reload }, act: Action::Signal { sig: "HUP".into() } });
+            actions.push(ActionSpec { at: When::AtMs { ms: t_reload + 150 }, act: Action::Emit { ev: "reloaded".into() } });
+            admin_steps.push(Step::Wait { ev: "reloaded".into() });
+        }
+        _ => {
+            actions.push(ActionSpec { at: When::AtMs { ms: t_file }, act: Action::Emit { ev: "reload_begin".into() } });
+            actions.push(ActionSpec { at: When::AtMs { ms: t_file + 200 + 150 }, act: Action::Emit { ev: "reloaded".into() } });
+            admin_steps.push(Step::Wait { ev: "reloaded".into() });
+        }
+    }
+    let mut admin2_needed = false;
+    if trigger == "RELOAD" && !valid {
+        // PgCat drops the admin connection when the reload fails: look again from a new one
+        admin2_needed = true;
+    } else {
+        admin_steps.push(q("SHOW DATABASES".into(), 0));
+        admin_steps.push(q("SHOW CONFIG".into(), 0));
+    }
+    admin_steps.push(Step::Terminate);
+    let mut admin = admin_client(500, "main", When::AtMs { ms: 0 }, &[]);
+    admin.steps = admin_steps;
+    clients.push(admin);
+    if admin2_needed {
+        let a2 = admin_client(501, "main", When::After { ev: "c500.done".into(), delay_ms: 20 }, &["SHOW DATABASES", "SHOW CONFIG"]);
+        clients.push(a2);
+    }
+    if variant == "add_pool_server_down" {
+        // the new pool's server is down at reload time, comes back, and the admin reloads again
+        actions.push(ActionSpec { at: When::AtMs { ms: 1 }, act: Action::HostMode { host: "pg-db3-p:5432".into(), mode: "refuse".into() } });
+        actions.push(ActionSpec { at: When::After { ev: "reloaded".into(), delay_ms: 300 }, act: Action::HostMode { host: "pg-db3-p:5432".into(), mode: "up".into() } });
+        let a3 = admin_client(502, "main", When::After { ev: "reloaded".into(), delay_ms: 500 }, &["RELOAD", "SHOW DATABASES"]);
+        clients.push(a3);
+        actions.push(ActionSpec { at: When::After { ev: "c502.done".into(), delay_ms: 10 }, act: Action::Emit { ev: "reloaded_again".into() } });
+    }
+    // workers on the unchanged pool, running across the reload (one long transaction straddles it)
+    let mut id = 0;
+    for k in 0..rng.range(1, if thorough { 4 } else { 3 }) {
+        id += 1;
+        let mut p = Prog::new(id);
+        if k == 0 {
+            p.new_txn();
+            let t = p.tag();
+            p.simple(format!("BEGIN /* {} */", t));
+            let s = p.select(1, 0, "");
+            p.simple(s);
+            p.think(t_reload + 200);
+            let s = p.select(2, 0, "");
+            p.simple(s);
+            let t = p.tag();
+            p.simple(format!("COMMIT /* {} */", t));
+        }
+        let nn = rng.range(4, 12);
+        worker_prog(&mut p, rng, nn, (10, 80), true);
+        p.steps.push(Step::Terminate);
+        clients.push(client(id, "app", "db", "apppw", rng.range(0, 40), p.steps));
+    }
+    // workers on db2 (changed / removed / unchanged depending on the variant)
+    for k in 0..rng.range(1, 2) {
+        id += 1;
+        let mut p = Prog::new(id);
+        if k == 0 {
+            p.new_txn();
+            let t = p.tag();
+            p.simple(format!("BEGIN /* {} */", t));
+            let s = p.select(1, 0, "");
+            p.simple(s);
+            p.think(t_reload + 150);
+            let t = p.tag();
+            p.simple(format!("COMMIT /* {} */", t));
+        }
+        let nn = rng.range(4, 10);
+        worker_prog(&mut p, rng, nn, (10, 80), false);
+        p.steps.push(Step::Terminate);
+        clients.push(client(id, "app", "db2", "apppw", rng.range(0, 40), p.steps));
+    }
+    // a client of the pool that only exists in the new configuration
+    id += 1;
+    let mut p = Prog::new(id);
+    for _ in 0..3 {
+        p.new_txn();
+        let s = p.select(1, 0, "");
+        p.simple(s);
+        p.think(20);
+    }
+    p.steps.push(Step::Terminate);
+    let mut c3 = client(id, "app", "db3", "apppw", 0, p.steps);
+    c3.start = When::After { ev: if variant == "add_pool_server_down" { "reloaded_again".into() } else { "reloaded".into() }, delay_ms: rng.range(5, 50) };
+    c3.role = "probe".into();
+    let db3_client = id;
+    clients.push(c3);
+    // and one that connects to db2 only after the reload
+    id += 1;
+    let mut p = Prog::new(id);
+    for _ in 0..2 {
+        p.new_txn();
+        let s = p.select(1, 0, "");
+        p.simple(s);
+    }
+    p.steps.push(Step::Terminate);
+    let mut c4 = client(id, "app", "db2", "apppw", 0, p.steps);
+    c4.start = When::After { ev: "reloaded".into(), delay_ms: rng.range(5, 50) };
+    c4.role = "probe".into();
+    let db2_late_client = id;
+    clients.push(c4);
+
+    let net = if rng.chance(0.5) { net_calm() } else { NetSpec { latency_ms: (0, *rng.pick(&[0u64, 1, 2])), ..net_swarm(rng) } };
+    let mut spec = Spec { config_toml: old.render(), hosts, net, clients, actions, end: EndSpec { deadline_ms: 900_000, calm_ms: 100 }, ..Default::default() };
+    spec.params = params_from(&old);
+    // pool parameters of the new configuration too (db3)
+    if let Some(serde_json::Value::Object(m)) = spec.params.get_mut("pools") {
+        if let serde_json::Value::Object(n) = new.pool_params() {
+            for (k, v) in n {
+                m.entry(k).or_insert(v);
+            }
+        }
+        m.entry("db3/app".to_string()).or_insert(serde_json::json!({"mode": "transaction", "size": 2, "cache": 0, "shards": 1, "statement_timeout": 0}));
+    }
+    spec.params.insert("variant".into(), serde_json::json!(variant));
+    spec.params.insert("valid".into(), serde_json::json!(valid));
+    spec.params.insert("trigger".into(), serde_json::json!(trigger));
+    spec.params.insert("db3_client".into(), serde_json::json!(db3_client));
+    spec.params.insert("db2_late_client".into(), serde_json::json!(db2_late_client));
+    if rng.chance(0.5) {
+        spec.yield_sites.push(("pool.from_config.before_store".into(), 3));
+    }
+    spec.family = format!("reload/{}/{}", trigger, variant);
+    spec.oracles = vec!["c14_reload".into(), "liveness".into()];
+    spec
+}
